@@ -1907,7 +1907,12 @@ class Evaluator:
                 if nm in ('itertools.chain.from_iterable',) and len(args) == 1 and isinstance(args[0], Comp) and args[0].kind in ('list', 'gen') and not kw:
                     # chain.from_iterable(xs(c) for c in C)  ==  [x for c in C for x in xs(c)]
                     c_ = args[0]; lvl_ = len(c_.gens)
-                    return Comp(s.elem_of(c_.elt, lvl_), list(c_.gens) + [(c_.elt, [])], 'list')
+                    inner_ = c_.elt; gens_ = [(g_, list(f_)) for g_, f_ in c_.gens]
+                    while isinstance(inner_, Cond) and not isinstance(inner_, BoolSel) and ((isinstance(inner_.b, (list, tuple)) and not inner_.b) or (isinstance(inner_.a, (list, tuple)) and not inner_.a)):
+                        # (xs(c) if t(c) else []): nothing is chained when t fails -- t filters the outer generator
+                        if isinstance(inner_.b, (list, tuple)) and not inner_.b: gens_[-1][1].append(inner_.g); inner_ = inner_.a
+                        else: gens_[-1][1].append(s.negate(inner_.g)); inner_ = inner_.b
+                    return Comp(s.elem_of(inner_, lvl_), gens_ + [(inner_, [])], 'list')
                 if nm in ('itertools.product', 'product') and args:
                     rp = kw.get('repeat')
                     n = int(rp.real_const()) if isinstance(rp, Poly) and rp.real_const() is not None else (1 if rp is None else None)
@@ -3019,6 +3024,10 @@ class Evaluator:
                     kind = {'extend': 'list', 'update': 'set'}[stx.value.func.attr]
                     if place is None or not s._acc_ok(place[2], kind) or (place[0], _pk(place[1])) in records: ok[0] = False; return
                     it2 = s._iterable(s.ev(stx.value.args[0], env2, mod, depth))
+                    while isinstance(it2, Cond) and not isinstance(it2, BoolSel) and ((isinstance(it2.b, (list, tuple)) and not it2.b) or (isinstance(it2.a, (list, tuple)) and not it2.a)):
+                        # out.extend(ys if c else []): nothing is added when c fails -- c filters the enclosing generator
+                        if isinstance(it2.b, (list, tuple)) and not it2.b: gens[level][1].append(it2.g); it2 = it2.a
+                        else: gens[level][1].append(s.negate(it2.g)); it2 = it2.b
                     if isinstance(it2, dict) or kind == 'set' and s._empty_acc(place[2]) == 'dict': ok[0] = False; return
                     gens.append((it2, []))
                     records[(place[0], _pk(place[1]))] = (place, kind, s.elem_of(it2, len(gens) - 1)); continue
